@@ -41,4 +41,9 @@ class NumOps (V : Type) where
   /-- Go `int(math.Ceil(float64(l) * q))` (NaN or out of range ↦ -2^63) -/
   ceilMul : Nat → V → Int
 
+/-- client_golang's bucket check (`upperBound >= next` panics), which the loader now applies as well -/
+def strictlyIncreasing {V : Type} [NumOps V] : List V → Bool
+  | a :: b :: rest => !(NumOps.ge a b) && strictlyIncreasing (b :: rest)
+  | _ => true
+
 end SE
